@@ -18,7 +18,7 @@ var fillOrFail = map[string]string{
 	"io.CopyN":       "copies exactly n bytes or fails",
 	"io.ReadAll":     "reads to EOF",
 	"io.Copy":        "reads to EOF",
-	"io.LimitReader": "wrapper; reads through it are classified at their own site",
+	"ioutil.ReadAll": "reads to EOF",
 }
 
 func calleeQual(c ssa.CallInstruction) string {
@@ -337,6 +337,27 @@ func readDiscipline(c *Ctx, r1, r2, r3 string) {
 	for _, call := range fl.Escapes {
 		q := calleeQual(call)
 		fn := call.Parent()
+		if q == "io.LimitReader" {
+			// a length-limited view of the source: reading it "to the end" yields AT MOST n bytes and reports a short
+			// count as success, so only the fill-or-fail primitives may consume it
+			nsites++
+			if v := call.Value(); v != nil {
+				fl2 := NewFlow(p, scope, v)
+				for _, c2 := range fl2.Escapes {
+					q2 := calleeQual(c2)
+					switch q2 {
+					case "io.ReadFull", "io.ReadAtLeast", "io.CopyN":
+						c.OK(r1, "primitive "+q2+" on a limited view in "+FuncName(c2.Parent()), p.Pos(c2.Pos()), "fill-or-fail primitive")
+					default:
+						c.Bad(r1, "read of a limited view by "+q2+" in "+FuncName(c2.Parent()), p.Pos(c2.Pos()), "the source is read through io.LimitReader by "+q2+", which returns fewer bytes than declared without an error when the input ends early: a truncated payload is delivered as if it were complete")
+					}
+				}
+				for _, c2 := range fl2.Invokes {
+					c.Bad(r1, "read of a limited view in "+FuncName(c2.Parent()), p.Pos(c2.Pos()), "method "+c2.Common().Method.Name()+" invoked on a length-limited view of the source")
+				}
+			}
+			continue
+		}
 		if why, ok := fillOrFail[q]; ok {
 			nsites++
 			c.OK(r1, "primitive "+q+" in "+FuncName(fn), p.Pos(call.Pos()), "fill-or-fail primitive: "+why)
